@@ -344,7 +344,9 @@ class NumpyPickler(Pickler):
         kwargs = {}
         try:
             self.file_handle.tell()
-        except io.UnsupportedOperation:
+        except (io.UnsupportedOperation, OSError):
+            # Pipes and other non-seekable raw files raise a plain
+            # OSError (ESPIPE).
             kwargs = {"numpy_array_alignment_bytes": None}
 
         wrapper = NumpyArrayWrapper(
